@@ -86,7 +86,7 @@ def process_all_requirements(pyscript_folder, requirements_paths, requirements_f
                 # Attempt to get version of package. Do nothing if it's found since
                 # we want to use the version that's already installed to be safe
                 parts = pkg.split("==")
-                if len(parts) > 2 or "," in pkg or ">" in pkg or "<" in pkg or "~" in pkg or "!" in pkg:
+                if len(parts) > 2 or "," in pkg or ">" in pkg or "<" in pkg or "~" in pkg or "!=" in pkg:
                     _LOGGER.error(
                         (
                             "Ignoring invalid requirement '%s' specified in '%s'; if a specific version"
